@@ -27,7 +27,7 @@ Fixpoint ops_index_ok (o : fop) : bool :=
   end.
 
 Definition field_name_index_ok (f : field_name) : bool :=
-  match f with FIndex n => index_fits n | FIdent _ _ => true end.
+  match f with FIndex n _ => index_fits n | FIdent _ _ => true end.
 
 Definition mk_push (sp : span) (id : N) (a : actual) (x : expected) : push :=
   {| ps_span := sp; ps_node := id; ps_actual := a; ps_expected := x |}.
